@@ -62,6 +62,25 @@ theorem pass_order_is_modelled :
     Goml.Gen.pipelineOrder.map (·.2.2.2.1) = [false, true, true, true] ∧
     Goml.Gen.goFileEndsWithDce = true := by decide
 
+/-! ## the new link: `mono` under the full `Sem` -/
+
+/-- **mono_accepted_pair_preserves** (the strengthening of C07's `mono_preserves_partial` that the
+    chain needs; proof in `Lemmas/PipeMonoSim.lean`).  For any pair of programs accepted by the
+    decidable check `MonoSim.monoOk` — in `pipeline_preserves`: the Core program and the output of
+    the model of `mono.rs`, both phases, with the instance table `mono` built — the two programs run
+    in lock step: with the SAME fuel and schedule they print the same, record the same extern
+    events and end the same way (both normally, both with the same panic, both out of fuel, or
+    both stuck).  All node kinds of Core except `ETraitCall` are covered: closures (related up to
+    their bodies), `go`, `dyn` dispatch, calls through local variables, generic functions as
+    values, references (the same store locations), generic type instances renamed by phase 2. -/
+theorem mono_accepted_pair_preserves (c : MonoSim.Cx) (hok : MonoSim.monoOk c = true) (fuel : Nat) (eager : Bool) :
+    (run fuel c.P' "main" eager).out = (run fuel c.P "main" eager).out ∧
+    (run fuel c.P' "main" eager).externs = (run fuel c.P "main" eager).externs ∧
+    ((run fuel c.P' "main" eager).status = (run fuel c.P "main" eager).status ∨
+     (∃ s s', (run fuel c.P "main" eager).status = "stuck:" ++ s ∧
+        (run fuel c.P' "main" eager).status = "stuck:" ++ s')) :=
+  MonoSim.run_rel hok fuel eager
+
 /-- the fragment of `pipeline_preserves` (decidable; `Model/Pipeline.lean`) -/
 def InPipeFragment (i : PipeIn) : Prop := inPipeFragment i = true
 
